@@ -6,6 +6,7 @@ import (
 	"encoding/json"
 	"fmt"
 	"os"
+	"runtime"
 	"sort"
 	"strings"
 	"sync"
@@ -560,6 +561,30 @@ func TestC06Race(t *testing.T) {
 	n /= nsh
 	sched.SetPerturb(uint64(seed())*7919 + 1)
 	defer sched.SetPerturb(0)
+	// several here-documents on one line, many times over: the parser
+	// announces them while the lexer already takes them
+	if runtime.GOMAXPROCS(0) > 1 {
+		reps := 6000
+		if thorough() {
+			reps = 40000
+		}
+		srcs := []string{"cat <<E0 <<E1\n0\nE0\n1\nE1\n", "a <<A <<-B <<C\n1\nA\n\t2\n\tB\n3\nC\n", "a <<A | b <<B && c <<C <<D\nA\nB\nC\nD\n", "x $(a <<A <<B\n1\nA\n2\nB\n) <<C <<D\nC\nD\n"}
+		for i := 0; i < reps; i++ {
+			src := srcs[i%len(srcs)]
+			c := c06Case{Kind: "parse", Src: src}
+			jr.begin("C06", "race", c)
+			if !c06Within(60*time.Second, func() {
+				if _, _, err := parser.ParseCommands(nil, "c06", src); err != nil {
+					panic(fmt.Sprintf("ParseCommands(%q): %v", src, err))
+				}
+			}) {
+				fail(t, "C06", "hang", c, "ParseCommands(%q) did not return within 60s under perturbed free scheduling (repetition %d)", src, i)
+			}
+			jr.end()
+		}
+		st.EvalN(int64(reps), int64(reps))
+		st.ClassN("several_heredocs_on_one_line_repeated", int64(reps))
+	}
 	prop := func(rt *rapid.T) {
 		if rapid.IntRange(0, 9).Draw(rt, "concurrent") == 0 {
 			// independent calls at the same time: each works on its own
